@@ -72,11 +72,14 @@ def gen_cases(tier, seed):
     # load((descriptor, iterators), resources=<selector>): the rows of the resources that are not selected stay where they are
     for i in range(2):
         yield {'family': 'tuple_selector', 'op': 'load_tuple_selector', 'idx': 8500 + i, 'seed': seed}
+    # sources(a, b): the second source is read when its turn comes, not while the first is streamed
+    for i in range(2):
+        yield {'family': 'sources_step', 'op': 'sources', 'idx': 8550 + i, 'seed': seed}
     # a data package whose resource is a JSON file (as dump_to_path(format='json') writes it) is read as it is delivered
     yield {'family': 'json_package', 'op': 'load_json_package', 'idx': 8600, 'seed': seed}
     # file sources whose look-ahead is a matter of BYTES held in memory before the first row is delivered: a text file in a
     # legacy encoding (larger than the 1 MiB the encoding probe samples), a GeoJSON file
-    for i, kind_ in enumerate(['legacy_encoding_csv', 'geojson', 'sql_table', 'xlsx']):
+    for i, kind_ in enumerate(['legacy_encoding_csv', 'geojson', 'sql_table', 'xlsx', 'csv_infer_python_types', 'csv_infer_strings']):
         yield {'family': 'file_source_memory', 'op': 'load_' + kind_, 'kind': kind_, 'idx': 8700 + i, 'seed': seed}
     # a step that finishes its resource on its own (dumper, printer, stream) in front of a concatenate of several resources
     for i, obs in enumerate(['dump_to_path', 'printer', 'stream', 'validate']):
@@ -111,7 +114,7 @@ def run_case(case):
         return run_csv(case, rng, d, counters, cov, viol, sizes)
     if case['family'] == 'file_source_memory':
         return run_file_memory(case, rng, d, counters, cov, viol)
-    if case['family'] in ('limit_rows', 'observer_then_concatenate', 'tuple_selector', 'json_package'):
+    if case['family'] in ('limit_rows', 'observer_then_concatenate', 'tuple_selector', 'json_package', 'sources_step'):
         return run_special(case, rng, d, counters, cov, viol, sizes)
     nsrc = rng.choice([1, 1, 2, 3]) if case['family'] == 'composition' else rng.choice([1, 2])
     tables = []
@@ -223,7 +226,8 @@ def run_file_memory(case, rng, d, counters, cov, viol):
     import tracemalloc
     kind = case['kind']
     sizes = {'legacy_encoding_csv': [25000, 100000], 'geojson': [1500, 6000], 'sql_table': [15000, 60000],
-             'xlsx': [2000, 8000]}[kind]
+             'xlsx': [2000, 8000], 'csv_infer_python_types': [20000, 80000], 'csv_infer_strings': [20000, 80000]}[kind]
+    by_position = kind in ('geojson', 'csv_infer_python_types', 'csv_infer_strings')
     peaks, fsizes, positions = [], [], []
     for N in [50] + sizes:          # (the first, tiny file only warms up imports and caches: not measured)
         if kind == 'legacy_encoding_csv':
@@ -235,6 +239,12 @@ def run_file_memory(case, rng, d, counters, cov, viol):
                 f.write('id,address,note\n')
                 for i in range(N):
                     f.write('%d,"%s","%s"\n' % (BASE + i, words[i % 4], words[(i + 1) % 4]))
+        elif kind.startswith('csv_infer'):
+            path = 'plain_%d.csv' % N
+            with open(path, 'w', newline='') as f:
+                f.write('id,n,s\n')
+                for i in range(N):
+                    f.write('%d,%d,v%d\n' % (BASE + i, i % 7, i % 5))
         elif kind == 'sql_table':
             import sqlite3
             path = os.path.abspath('src_%d.db' % N)
@@ -283,25 +293,28 @@ def run_file_memory(case, rng, d, counters, cov, viol):
             yield
         first_row.__defaults__ = None
         first_row = (lambda f, a, b: (lambda rows: f(rows, a, b)))(first_row, rpath, position)
-        if kind == 'geojson' and N != 50:
+        if by_position and N != 50:
             positions.append(position)
-        if kind != 'geojson':
+        if not by_position:
             tracemalloc.start()
         try:
             with boot.quiet():
                 src_ = d.load('sqlite:///' + path, table='t') if kind == 'sql_table' else d.load(path)
+                if kind.startswith('csv_infer'):
+                    src_ = d.load(path, infer_strategy={'csv_infer_python_types': d.load.INFER_PYTHON_TYPES,
+                                                        'csv_infer_strings': d.load.INFER_STRINGS}[kind])
                 d.Flow(src_, first_row).process()
         except Exception as e:
             if not isinstance(getattr(e, 'cause', e), _Enough):
-                if kind != 'geojson':
+                if not by_position:
                     tracemalloc.stop()
                 return dict(nontrivial=False, violations=[], cov=cov, counters=counters,
                             inconclusive='load of the %s file failed: %s' % (kind, str(getattr(e, 'cause', e))[:200]))
         if N != 50:
-            peaks.append(tracemalloc.get_traced_memory()[1] if kind != 'geojson' else 0)
+            peaks.append(tracemalloc.get_traced_memory()[1] if not by_position else 0)
         else:
             fsizes.pop()
-        if kind != 'geojson':
+        if not by_position:
             tracemalloc.stop()
         counters['delivery_events'] += delivered[0]
         counters['pull_events'] += 1
@@ -312,7 +325,7 @@ def run_file_memory(case, rng, d, counters, cov, viol):
     prog = {'family': 'file_source_memory', 'kind': kind, 'file_bytes': fsizes, 'peak_bytes_before_first_row': peaks}
     # bounded look-ahead: what is held before the first row does not grow with the file (here: by less than half of what the
     # file grew by)
-    if kind == 'geojson':
+    if by_position:
         read = [fs if pos_[0] is None else pos_[0] for pos_, fs in zip(positions, fsizes)]
         prog['bytes_read_when_first_row_arrives'] = read
         if read[1] > fsizes[1] // 2:
@@ -391,6 +404,23 @@ def run_special(case, rng, d, counters, cov, viol, sizes):
                         yield row
                 return sink_json
             steps = [d.load('jp_%d/datapackage.json' % N), mk_sink(N, size, stats, pulled)]
+        elif fam == 'sources_step':
+            def src_s(name, j):
+                return d.load(({'resources': [{'name': name, 'path': name + '.csv', 'schema': {'fields': copy.deepcopy(fl)}}]},
+                               [g(j)]), strip=False)
+            import time as time_
+
+            def mk_slow(sink_):
+                def slow_sink(rows):
+                    # (a consumer that takes its time: whoever reads ahead on its own has the time to do so)
+                    for k_, row in enumerate(sink_(rows)):
+                        if k_ % 400 == 0:
+                            time_.sleep(0.002)
+                        yield row
+                return slow_sink
+            slow_sink = mk_slow(sink)
+            steps = [d.sources(src_s('a', 0), src_s('b', 1)) if case['idx'] % 2 == 0 else
+                     d.sources(d.Flow(src_s('a', 0), d.add_field('z', 'integer', 1)), src_s('b', 1)), slow_sink]
         elif fam == 'tuple_selector':
             desc = {'resources': [{'name': 'a', 'path': 'a.csv', 'schema': {'fields': copy.deepcopy(fl)}},
                                   {'name': 'b', 'path': 'b.csv', 'schema': {'fields': copy.deepcopy(fl)}}]}
